@@ -262,6 +262,71 @@ static void alias_case(op_t op, MODULE_TYPE mt, int native, uint64_t N, uint64_t
   case_end(rs >= 1);
 }
 
+// several vectors as interleaved views of ONE buffer (column views of a matrix of polynomials): view v has its limbs at
+// base + v*N + i*stride with stride = nviews*N. A legal layout: every stride is >= N and no two limbs overlap; the limbs of
+// the other views lie exactly in each view's "padding" and must stay untouched.
+static void interleaved_case(op_t op, MODULE_TYPE mt, int native, uint64_t N, uint64_t rs, uint64_t as, uint64_t bs, unsigned order, unsigned rep) {
+  const int ar = op_arity(op);
+  if (op_is_big(op) || ar == 0) return;
+  if (ar < 2) bs = 0;
+  char key[160];
+  snprintf(key, sizeof key, "%s(interleaved views)|%s%s", op_name[op], mt == NTT120 ? "ntt120" : "fft64", native ? "" : ",generic");
+  if (!case_begin(key, "N=%" PRIu64 " res=%" PRIu64 " a=%" PRIu64 " b=%" PRIu64 " order=%u rep=%u", N, rs, as, bs, order, rep)) return;
+  rng_t* r = crng();
+  const MODULE* mod = get_module(N, mt, native);
+  const uint64_t nviews = 4, stride = nviews * N, rows = 5;
+  gbuf_t g;
+  int64_t* buf = gb_alloc(&g, rows * stride * 8, 8, 8 * (rep % 8), 4096);
+  int64_t* ref = malloc(rows * stride * 8);
+  for (uint64_t i = 0; i < rows * stride; i++) ref[i] = buf[i] = rng_sbits(r, 61);
+  // which view is res / a / b (all different); view 3 is a bystander
+  static const unsigned PERM[6][3] = {{0, 1, 2}, {1, 0, 2}, {2, 1, 0}, {0, 2, 1}, {1, 2, 0}, {2, 0, 1}};
+  const unsigned vr = PERM[order % 6][0], va = PERM[order % 6][1], vb = PERM[order % 6][2];
+  int64_t *R = buf + vr * N, *A = buf + va * N, *B = buf + vb * N;
+  int64_t p = rng_sbits(r, 1 + (unsigned)rng_range(r, 0, 61));
+  if (op == OP_AUTO) p |= 1;
+  switch (op) {
+    case OP_COPY: vec_znx_copy(mod, R, rs, stride, A, as, stride); break;
+    case OP_NEGATE: vec_znx_negate(mod, R, rs, stride, A, as, stride); break;
+    case OP_ADD: vec_znx_add(mod, R, rs, stride, A, as, stride, B, bs, stride); break;
+    case OP_SUB: vec_znx_sub(mod, R, rs, stride, A, as, stride, B, bs, stride); break;
+    case OP_ROTATE: vec_znx_rotate(mod, p, R, rs, stride, A, as, stride); break;
+    case OP_AUTO: vec_znx_automorphism(mod, p, R, rs, stride, A, as, stride); break;
+    default: break;
+  }
+  int64_t* za = calloc(N, 8);
+  int64_t* tmp = malloc(N * 8);
+  uint64_t nbad = 0;
+  for (uint64_t row = 0; row < rows; row++)
+    for (unsigned v = 0; v < nviews; v++) {
+      const int64_t* got = buf + row * stride + v * N;
+      const int64_t* want = ref + row * stride + v * N;  // untouched unless it is a written limb of res
+      if (v == vr && row < rs) {
+        const int64_t* al = row < as ? ref + row * stride + va * N : za;
+        const int64_t* bl = (ar == 2 && row < bs) ? ref + row * stride + vb * N : za;
+        switch (op) {
+          case OP_COPY: memcpy(tmp, al, N * 8); break;
+          case OP_NEGATE: for (uint64_t i = 0; i < N; i++) tmp[i] = -al[i]; break;
+          case OP_ROTATE: ring_map(N, 0, p, al, tmp); break;
+          case OP_AUTO: ring_map(N, 1, p, al, tmp); break;
+          case OP_SUB: for (uint64_t i = 0; i < N; i++) tmp[i] = al[i] - bl[i]; break;
+          default: for (uint64_t i = 0; i < N; i++) tmp[i] = al[i] + bl[i];
+        }
+        want = tmp;
+      }
+      if (memcmp(got, want, N * 8) && nbad++ < 2)
+        viol(v == vr && row < rs ? "oracle" : "canary", "%s on interleaved views (res=view %u, a=view %u, b=view %u, stride 4N): row %" PRIu64 " of view %u is wrong / was modified (res=%" PRIu64 " a=%" PRIu64 " b=%" PRIu64 " N=%" PRIu64 ")", op_name[op], vr, va, vb, row, v, rs, as, bs, N);
+    }
+  long wh;
+  if (gb_check(&g, &wh)) viol("canary", "%s on interleaved views wrote outside the buffer (%ld)", op_name[op], wh);
+  cnt("interleaved_view_calls", 1);
+  cnt("limbs_compared", rows * nviews);
+  sample("res/a/b are views %u/%u/%u of one buffer with stride 4N; all 20 limbs checked", vr, va, vb);
+  free(za); free(tmp); free(ref);
+  gb_free(&g);
+  case_end(rs >= 1);
+}
+
 void run_C08(void) {
   const int th = G.thorough;
   unsigned ctr = 0;
@@ -277,6 +342,16 @@ void run_C08(void) {
             for (uint64_t bs = 0; bs <= (ar >= 2 ? 4u : 0u); bs++, ctr++)
               one_case(op, level, FFT64, 1, kN[ni], rs, as, bs, ctr % 4, (ctr / 4) % 4, (ctr / 16) % 4, (int)(ctr & 1), 0);
       }
+  // interleaved views of one buffer
+  for (size_t ni = 0; ni < N_ALL_N; ni++) {
+    const uint64_t N = ALL_N[ni];
+    for (op_t op = OP_COPY; op <= OP_AUTO; op++)
+      for (int cfg = 0; cfg < 3; cfg++)
+        for (unsigned t = 0; t < (N <= 64 ? (th ? 60u : 12u) : (th ? 12u : 3u)); t++) {
+          uint64_t h = mix64(t * 977 + op * 31 + N);
+          interleaved_case(op, cfg == 2 ? NTT120 : FFT64, cfg != 1, N, h % 5, (h >> 3) % 5, (h >> 6) % 5, (unsigned)(h >> 9) % 6, t);
+        }
+  }
   // aliased forms (the suite only aliases with equal sizes): all size combinations on small N, sampled above
   for (size_t ni = 0; ni < N_ALL_N; ni++) {
     const uint64_t N = ALL_N[ni];
